@@ -133,6 +133,16 @@ theorem thresholdCall_nonneg (thr : List Rat) (ploidy r : Nat) (v : Option Rat) 
       positivity
 
 
+/-- the rescaled ratio is floored at the (positive) generated `min_abs_val`, then at most doubled -/
+theorem rescaledRatio_nonneg (ploidy : Nat) (hapX : Bool) (cls : CClass) (a : Rat) :
+    0 ≤ rescaledRatio ploidy hapX cls a Generated.MIN_ABS_VAL := by
+  unfold rescaledRatio
+  have h0 : (0 : Rat) ≤ Generated.MIN_ABS_VAL := by decide +kernel
+  have hb : (0 : Rat) ≤ max (a / (ploidy : Rat)) Generated.MIN_ABS_VAL := le_trans h0 (le_max_right _ _)
+  have hx : (0 : Rat) ≤ (if (hapX && cls == CClass.x) = true then (2 : Rat) else 1) := by split <;> norm_num
+  have hy : (0 : Rat) ≤ (if (cls == CClass.y) = true then (2 : Rat) else 1) := by split <;> norm_num
+  exact mul_nonneg (mul_nonneg hb hx) hy
+
 /-- every copy number `do_call` reports is a non-negative integer, whatever log2 (ratio `t ≥ 0`),
     purity, ploidy, method, sex configuration -/
 theorem callRow_cn_nonneg (cfg : CallCfg) (m : Method) (thr : List Rat) (first : String)
@@ -144,7 +154,7 @@ theorem callRow_cn_nonneg (cfg : CallCfg) (m : Method) (thr : List Rat) (first :
   split at hc
   · cases m <;> simp only at hc
     · injection hc with hc; subst hc
-      exact roundHE_nonneg _ (absoluteOf_nonneg _ _ _ _ ht)
+      exact thresholdCall_nonneg _ _ _ _ _ (rescaledRatio_nonneg _ _ _ _)
     · injection hc with hc; subst hc
       exact roundHE_nonneg _ (absoluteOf_nonneg _ _ _ _ ht)
     · exact absurd hc (by simp)
